@@ -132,6 +132,59 @@ def counter_part(ctx):
     return None
 
 
+# ----------------------------------------------------------------------------- what is counted as the key
+
+def extract_part(ctx):
+    """The step before Counter.Incr: which argument of a request the filter chain counts as THE key, per command
+    family x letter case of the command name (spec/redis/HotKeyExtract.tla). The code's rule (name lower-cased
+    unconditionally) keeps OnlyAccessedKeysReported; comparing the name as sent, or lower-casing it only when its first
+    letter is upper case, must break it (anti-vacuity). The 20 vectors of the model are driven through a real Redis
+    processor (the filter chain a backend client builds), HOTKEY is asked after every vector: every listed name must
+    be a key argument of some request sent."""
+    # the code's rule: exhaustive and clean; the same run emits the vectors (one per transition label)
+    g = ctx.mc("redis", "HotKeyExtract", "Gen_HotKeyExtract.cfg", workers=1, timeout=120)
+    ctx.mc("redis", "HotKeyExtract", "MC_HotKeyExtract_firstbyte.cfg", workers=1, timeout=120,
+           expect_violated=["OnlyAccessedKeysReported"], count=False)
+    if ctx.thorough:
+        ctx.mc("redis", "HotKeyExtract", "MC_HotKeyExtract_never.cfg", workers=1, timeout=120,
+               expect_violated=["OnlyAccessedKeysReported"], count=False)
+    vecs, seen = [], set()
+    for tag, v in g.prints:
+        if tag == "VEC" and (v["f"], v["p"]) not in seen:
+            seen.add((v["f"], v["p"]))
+            vecs.append(v)
+    if g.timeout or not g.ok or len(vecs) != 20:
+        raise kit.Inconclusive("vector generation failed (%d vectors): %s" % (len(vecs), (g.error or str(g.violated))[:300]))
+    vfile = os.path.join(ctx.work, "namecase-vectors.ndjson")
+    kit.write_ndjson(vfile, vecs)
+    out = os.path.join(ctx.work, "namecase.ndjson")
+    ctx.harness(["c19-namecase", "-in", vfile, "-out", out], timeout=300)
+    recs = kit.read_ndjson(out)
+    if len(recs) != 20 or any(r["requests"] == 0 for r in recs):
+        raise kit.Inconclusive("name-case driver: %d vectors answered" % len(recs))
+    known_unknown = set()
+    listed_keys = 0
+    for r in recs:
+        ctx.case(key="namecase:%s:%s" % (r["f"], r["p"]), nontrivial=r["p"] not in ("lower",))
+        if r.get("parse"):
+            ctx.violation("report-unaccessed-key/hotkey-reply-is-not-the-report",
+                          "HOTKEY reply after %s/%s requests is not the collector's report: %s" % (r["f"], r["p"], r["parse"][:80]), r)
+            continue
+        listed_keys = max(listed_keys, len(r.get("reported") or []))
+        new = [n for n in (r.get("unknown") or []) if n not in known_unknown]
+        known_unknown.update(new)
+        if new:
+            ctx.violation("report-unaccessed-key/name-case/%s" % r["f"],
+                          "after %s requests with the command name written %s (%s) HOTKEY lists %s, which is not a key of any "
+                          "request sent (first arguments that are not keys: %s)" % (r["f"], r["p"], sorted(set(r["names"])), new, r.get("nonkeys")),
+                          {k: r[k] for k in ("f", "p", "counts", "names", "requests", "keys", "nonkeys", "unknown")})
+    ctx.cov["name_case"] = {"vectors": len(recs), "requests": sum(r["requests"] for r in recs), "error_replies": sum(r["errors"] for r in recs),
+                            "keys_listed_at_most": listed_keys}
+    ctx.sample({"name_case_vector": {k: recs[4][k] for k in ("f", "p", "counts", "names", "requests")}})
+    if listed_keys < 10:
+        raise kit.Inconclusive("name-case driver: the report never filled (%d keys)" % listed_keys)
+
+
 # ----------------------------------------------------------------------------- counter under concurrency
 
 def latch_part(ctx):
@@ -488,6 +541,7 @@ def run(ctx):
         "exhaustive collector model: 3 keys, 2 counters, capacity 2, <= 3 periods, <= 4 accesses, 2 clock ticks, 1 reader; an access is only scheduled between jobs (it commutes with every step but the latch)",
         "the logarithmic counter is modelled as bounded nondeterminism (val' in val..min(255, val+n), a zero counter always leaves zero); its distribution is not checked",
         "collect and evictStale never overlap each other (both run on Collector.Run's goroutine)",
+        "key extraction: 4 command families x 5 letter-case patterns of the name; on the code only the commands a client can get through the proxy reach the filter chain (eval and scan for the key-less/eval-like families; cluster and auth cannot be sent by clients)",
         "Incr against Latch: exhaustive for 2 keys, 5 accesses, 3 latches; on the code free-running rounds with 1..4 writers, capacity above the number of keys (no eviction) so that conservation is exact",
     ]
     # the parts are independent: an infrastructure problem in one of them must not hide what the others observe
@@ -504,6 +558,7 @@ def run(ctx):
 
     part(counter_part)
     part(latch_part)
+    part(extract_part)
     part(collector_models)
     part(collector_part)
     part(e2e_part)
